@@ -53,4 +53,10 @@ theorem refine_Language_list (W : World) (ℓ : Int) (st : St) :
     Bool.false_eq_true, if_false]
   rw [hlist]; rfl
 
+/-- the same as an equation between functions: `list()` is pure (it cannot fail and touches no
+state), so the call can be replaced wherever it stands in a caller -/
+theorem refine_Language_list_fun (W : World) (ℓ : Int) : Gen.Code.Language_list W ℓ = Go.pure (Model.list ℓ) := by
+  funext st
+  exact refine_Language_list W ℓ st
+
 end Bip39V
